@@ -49,10 +49,10 @@ def raising_site(e: BaseException) -> str:
     return site
 
 
-def execute(rk, data: bytes):
+def execute(rk, data: bytes, cache=None):
     import dpapi_ng
 
-    cache = seams.make_cache(rk)
+    cache = cache if cache is not None else seams.make_cache(rk)
     limit = 100000 + 100 * len(data)
     try:
         v, steps, kdfs = budget.run(limit, dpapi_ng.ncrypt_unprotect_secret, data, cache=cache, kdf_limit=KDF_CAP)
@@ -65,8 +65,8 @@ def execute(rk, data: bytes):
         return "exc", e, budget.S.count, budget.S.kdf_calls
 
 
-def judge(acc, rk, case, data: bytes, allowed) -> None:
-    st, v, steps, kdfs = execute(rk, data)
+def judge(acc, rk, case, data: bytes, allowed, cache=None) -> None:
+    st, v, steps, kdfs = execute(rk, data, cache)
     acc.stat_max("dpapi_lines", steps)
     acc.stat_max("kdf_calls", kdfs)
     if st == "ok":
@@ -124,13 +124,23 @@ def run_shard(shard, tier, seed, acc) -> None:
         else:
             gen = bm.keyid_mutations(base.blob)
         wrong = other_root(seed)._replace(rkid=base.rk.rkid)
+        # a cache with history: it has already opened the valid blob and is shared by all later (mutated) inputs of this shard
+        warm = seams.make_cache(base.rk)
+        execute(base.rk, base.blob, warm)
+        fm = bm.field_map(base.blob)
+        kid_span = [(s_, e_) for s_, e_, nm in fm if nm.startswith("kid.")]
+        k0, k1 = (min(s_ for s_, _ in kid_span), max(e_ for _, e_ in kid_span)) if kid_span else (0, 0)
         for lab, data in gen:
             if acc.too_many():
                 break
             judge(acc, base.rk, ["mut", base.bid, lab], data, allowed)
             n += 1
             acc.nt((base.bid, data))
-            if what != "simple" or n % 16 == 0:
+            in_kid = what == "kid" or (lab[0] in ("flip", "sub") and k0 <= (lab[1] // 8 if lab[0] == "flip" else lab[1]) < k1)
+            if in_kid or n % 16 == 0:
+                judge(acc, base.rk, ["mut-warmcache", base.bid, lab], data, allowed, cache=warm)
+                n += 1
+            if what == "kid" or (what == "der" and n % 2 == 0) or n % 16 == 0:
                 judge(acc, wrong, ["mut-wrongkey", base.bid, lab], data, allowed)
                 n += 1
         acc.sample({"blob": base.bid, "family": what, "last_mutation": lab})
@@ -171,7 +181,7 @@ def replay(case, seed, acc) -> None:
     allowed = allowed_types()
     acc.ev()
     k = case[0]
-    if k in ("mut", "mut-wrongkey"):
+    if k in ("mut", "mut-wrongkey", "mut-warmcache"):
         base = bm.base_by_id(seed, case[1])
         lab = case[2]
         if lab[0] == "der":
@@ -180,8 +190,12 @@ def replay(case, seed, acc) -> None:
             data = bm.keyid_mutation_by_label(base.blob, lab)
         else:
             data = bm.apply_simple(base.blob, lab)
-        rk = base.rk if k == "mut" else other_root(seed)._replace(rkid=base.rk.rkid)
-        judge(acc, rk, case, data, allowed)
+        rk = base.rk if k != "mut-wrongkey" else other_root(seed)._replace(rkid=base.rk.rkid)
+        warm = None
+        if k == "mut-warmcache":
+            warm = seams.make_cache(base.rk)
+            execute(base.rk, base.blob, warm)
+        judge(acc, rk, case, data, allowed, cache=warm)
     elif k == "raw":
         judge(acc, other_root(seed), case, bytes.fromhex(case[1]), allowed)
     elif k in ("win", "win-wrongkey"):
